@@ -164,3 +164,37 @@ def r7_7(ctx):
                 bad = [r[1] for r in res if not r[0]]
                 ctx.ob("get_best_move>%s:index#%d" % (callee.split("::")[-1], kk), not bad, cb.where(cb.term_loc(bb)),
                        bad[0] if bad else "%s (in %d calling contexts)" % (res[0][1], len(res)))
+
+
+def r7_8(ctx):
+    """Every value the search returns is negated by its caller (`-alpha_beta_search(..)`): a constant it
+    returns - the abort sentinel, the draw score, a mate bound - must have a representable negation, and
+    the sentinel must stay outside the score range in both signs."""
+    from wa.expr import Exprs
+    f = ctx.facts
+    n = 0
+    for fn in (ABS, QUIESCE):
+        if not f.has_body(fn):
+            raise AnchorMissing(fn)
+        b = f.body(fn)
+        ctx.note_fn(fn)
+        ex = Exprs(b)
+        k = 0
+        for loc, st in b.iter_stmts():
+            if st["k"] != "assign" or st["place"]["proj"] or loc[0] not in b.reachable:
+                continue
+            # return place, or a local that only carries the result to it
+            l = st["place"]["local"]
+            if l != 0 and not (b.local_ty(l) == "i32" and l not in b.names):
+                continue
+            e = ex.rvalue(st["rv"], loc)
+            if e[0] != "const" or isinstance(e[1], bool) or not isinstance(e[1], int) or b.local_ty(l) != "i32":
+                continue
+            if l != 0:
+                continue
+            n += 1
+            k += 1
+            ok = -(2 ** 31) < e[1] <= 2 ** 31 - 1
+            ctx.ob("%s:returned-constant#%d:negatable" % (fn.split("::")[-1], k), ok, b.where(loc),
+                   "returns the constant %d; every caller negates the result%s" % (e[1], "" if ok else ": -(i32::MIN) overflows - the first abort inside the tree panics in a build with overflow checks and wraps to the same value otherwise"))
+    ctx.floor("constants returned by the search", n, 1)
